@@ -130,3 +130,123 @@ func wIsMultipleOf(t *wterm, w int64) bool {
 	}
 	return false
 }
+
+// C11 rules alloc-failure-not-used and alloc-size-no-wrap (added after probing with a small memory and with huge
+// lengths: $runtime.HeapAlloc did not look at what the allocator answered and zero-filled [0, nbytes) when it was 0 —
+// string constants and globals read back as zero and the program went on; $runtime.Block.HeapAlloc computed
+// item_count*item_size+16 with a 32-bit multiplication, so make([]i64, 1<<29+2) got a 32-byte block, reported its
+// length as 536870914, and in-range writes landed in another live slice).
+//
+//   alloc-failure-not-used — on every path of $runtime.HeapAlloc on which a store's address is built from the result
+//       of the malloc call, that result has been tested (eqz or as an `if` condition) and the zero arm does not store.
+//   alloc-size-no-wrap — every path of $runtime.Block.HeapAlloc that reaches the call of $runtime.HeapAlloc with
+//       mul(item_count, item_size) + header as its argument carries a condition on the 64-bit product of the two
+//       (extend_i32_u of both) that bounds it below 2^32.
+
+func c11AllocFailure(m *watModule, ha *watFunc) (bool, string, int) {
+	ps, err := watPaths(m, ha)
+	if err != nil {
+		return false, "path summary failed: " + err.Error(), 0
+	}
+	n := 0
+	mentionsMalloc := func(t *wterm) bool {
+		found := false
+		var walk func(*wterm)
+		walk = func(x *wterm) {
+			if x == nil {
+				return
+			}
+			if x.Op == "call" && strings.HasSuffix(x.Name, "malloc") {
+				found = true
+			}
+			for _, a := range x.Args {
+				walk(a)
+			}
+		}
+		walk(t)
+		return found
+	}
+	for i, p := range ps {
+		stores := 0
+		for _, e := range p.Events {
+			if e.Kind == "store" && len(e.Args) > 0 && mentionsMalloc(e.Args[0]) {
+				stores++
+			}
+		}
+		if stores == 0 {
+			continue
+		}
+		n++
+		tested := false
+		for _, cd := range p.Conds {
+			t := cd.T
+			switch {
+			case t.Op == "call" && strings.HasSuffix(t.Name, "malloc") && cd.Taken:
+				tested = true // `if ptr { … }`
+			case t.Op == "op" && t.Name == "eqz" && len(t.Args) == 1 && t.Args[0].Op == "call" && strings.HasSuffix(t.Args[0].Name, "malloc") && !cd.Taken:
+				tested = true
+			case t.Op == "op" && (t.Name == "ne" || t.Name == "eq") && len(t.Args) == 2 && mentionsMalloc(t) && (wIsConst(t.Args[0], 0) || wIsConst(t.Args[1], 0)) && cd.Taken == (t.Name == "ne"):
+				tested = true
+			}
+		}
+		if !tested {
+			return false, fmt.Sprintf("path %d (ends line %d) stores through the pointer the allocator answered without having tested it: when the allocator fails (0) the zero-fill loop clears [0, nbytes) — the program's constants and globals — and the program continues with a nil block", i, p.Line), n
+		}
+	}
+	return true, "", n
+}
+
+func c11AllocSizeNoWrap(m *watModule, bh *watFunc) (bool, string, int) {
+	ps, err := watPaths(m, bh)
+	if err != nil {
+		return false, "path summary failed: " + err.Error(), 0
+	}
+	n := 0
+	var hasMul func(t *wterm, wide bool) bool
+	hasMul = func(t *wterm, wide bool) bool {
+		if t == nil {
+			return false
+		}
+		if t.Op == "op" && t.Name == "mul" && len(t.Args) == 2 {
+			isWide := func(x *wterm) bool { return x.Op == "op" && strings.HasPrefix(x.Name, "extend_i32") }
+			if wide == (isWide(t.Args[0]) && isWide(t.Args[1])) {
+				return true
+			}
+		}
+		for _, a := range t.Args {
+			if hasMul(a, wide) {
+				return true
+			}
+		}
+		return false
+	}
+	for i, p := range ps {
+		callsAlloc := false
+		for _, e := range p.Events {
+			if e.Kind == "call" && strings.HasSuffix(e.Name, "HeapAlloc") && len(e.Args) == 1 && hasMul(e.Args[0], false) {
+				callsAlloc = true
+			}
+		}
+		if !callsAlloc {
+			continue
+		}
+		n++
+		bounded := false
+		for _, cd := range p.Conds {
+			t := cd.T
+			if t.Op == "op" && len(t.Args) == 2 && hasMul(t.Args[0], true) && t.Args[1].Op == "const" {
+				k := uint64(t.Args[1].K)
+				switch {
+				case (t.Name == "gt_u" || t.Name == "ge_u") && !cd.Taken && k <= 1<<32-17:
+					bounded = true
+				case (t.Name == "le_u" || t.Name == "lt_u") && cd.Taken && k <= 1<<32-16:
+					bounded = true
+				}
+			}
+		}
+		if !bounded {
+			return false, fmt.Sprintf("path %d (ends line %d) asks for item_count*item_size+16 bytes computed in 32 bits without a test of the 64-bit product: a product of 2^32 or more wraps, the block is smaller than the slice that describes it, and in-range writes land in other live blocks", i, p.Line), n
+		}
+	}
+	return true, "", n
+}
